@@ -330,6 +330,14 @@ class ToolOps(StepOps):
             if isinstance(v, tuple) and v[:1] == ("GLOBAL",):
                 r = self.ctx.pkg.resolve_global(self.module, v[1])
                 return self.ctx.pkg.lib_unit(r.qual) if r.kind == "lib" else None
+            if v is None or v is UNKNOWN:
+                # a function defined inside the function being evaluated (a closure over its locals)
+                here = env.get("@unit") or self.unit
+                outer = {id(here.node), id(getattr(here, "inlined_from", here).node)}
+                for x in self.module.units.values():
+                    if x.parent is not None and id(x.parent.node) in outer and getattr(x.node, "name", None) == call.func.id \
+                            and x.kind in ("sync", "coroutine"):
+                        return x
         return None
 
     def other(self, e, env, ev):
@@ -1017,11 +1025,12 @@ TOOLS: List[Tuple[str, Callable[[], Any]]] = [
     ("builtins.acallable_iterator", _callable_iter_cells),
     ("builtins._zip_inner", lambda: _zip_cells(False)),
     ("builtins._zip_inner_strict", lambda: _zip_cells(True)),
-    ("itertools.zip_longest", _zip_longest_cells),
 ]
-#: tools that drive a library generator of their own (islice iterates ``enumerate(borrow(it))``): evaluated on the object model
+#: tools that drive a library generator of their own (islice iterates ``enumerate(borrow(it))``) or may keep their state in an
+#: object of a private class: evaluated on the object model
 OBJECT_TOOLS: List[Tuple[str, Callable[[], Any]]] = [
     ("itertools.islice", _islice_cells),
+    ("itertools.zip_longest", _zip_longest_cells),
 ]
 
 STDLIB_NAME = {"builtins._zip_inner": "zip", "builtins._zip_inner_strict": "zip(strict=True)"}
@@ -1238,6 +1247,10 @@ def _tables(ctx, rid: str, tools, kind: str, counter: str, fields=ALL, make_ops=
             return [f"{label}: evaluated {_show(g)}, stdlib {_show(w)}" for label, g, w in zip(ALL, got, exp) if g != w and label in which]
 
         for cell in cells():
+            if total >= 8 and decided == 0:
+                # nothing of this tool is evaluable over the model: the remaining cells would only burn the work budget
+                ctx.note(f"{rid}: {short}: the first {total} cells are not evaluable over the model; the rest is skipped")
+                break
             total += 1
             ctx.count(counter)
             status, got, exp = evaluate(cell)
